@@ -29,7 +29,7 @@ ASSUMPTIONS = [
 ]
 
 FL = Flags(
-    finite_choice=True, max_abstract=3, max_concrete=5, max_fields=3, max_list_size=2, floats=True, float_refined=True,
+    finite_choice=True, max_abstract=3, max_concrete=5, min_extra_concrete=2, max_fields=3, max_list_size=2, floats=True, float_refined=True,
     dependent=True, infeasible=False, tuples=True, unions=True, unreachable=False, standalone_concretes=True, permute_considered=False,
 )
 FL_FULL = FL.replace(empty_lists=False, unions=False, dependent=False)
@@ -63,7 +63,7 @@ class GrowLanguage(Facet):
     flags = FL
 
     def budget(self, tier):
-        return (12, 8) if tier == "quick" else (60, 16)
+        return (50, 8) if tier == "quick" else (400, 16)
 
     def caps(self, tier):
         return (3000, 400) if tier == "quick" else (120000, 5000)
@@ -138,7 +138,7 @@ class GrowLanguage(Facet):
         for c in extra[:2]:
             why = "deeper than d" if canon_depth(c) > d else "not in the reference language"
             rec.fail(
-                f"C04/{self.name}/extra/{'too-deep' if canon_depth(c) > d else 'invalid'}",
+                f"C04/{self.name}/extra/{'too-deep' if canon_depth(c) > d else 'not-in-reference-set'}",
                 f"{self.decider} creation at d={d} reaches {canon_str(c)} ({why}) via draws {got[c]}; grammar {spec_str(case['spec'])}",
             )
         if complete:
@@ -165,7 +165,7 @@ class PIGrowSubset(GrowLanguage):
     decider = "pigrow"
 
     def budget(self, tier):
-        return (10, 4) if tier == "quick" else (40, 16)
+        return (40, 4) if tier == "quick" else (300, 16)
 
     def compare(self, case, rec, w, d, ref, got, complete):
         GrowLanguage.compare(self, case, rec, w, d, ref, got, False)
@@ -182,7 +182,7 @@ class FullInitializerExact(GrowLanguage):
     flags = FL_FULL
 
     def budget(self, tier):
-        return (12, 6) if tier == "quick" else (60, 16)
+        return (60, 6) if tier == "quick" else (400, 16)
 
     def reference(self, w, d, lang):
         info = w.info
@@ -191,7 +191,9 @@ class FullInitializerExact(GrowLanguage):
         if not all(a in rec_syms for a in info.abstract_names if a in reach):
             return None
         allp = lang.of_symbol(info.start, d)
-        return frozenset(c for c in allp if canon_is_full(c, d))
+        full = frozenset(c for c in allp if canon_is_full(c, d))
+        # when no program has all branches ending at depth d the statement makes no claim
+        return full or None
 
     def create(self, w, d):
         from geneticengine.problems import SingleObjectiveProblem
